@@ -75,3 +75,14 @@ Theorem C04_paveba_rebuilt_designs_are_the_sampled_designs : forall S P U,
   Gen_algos.paveba_modeled S P U = Gen_algos.paveba_sampled S P U /\ Gen_algos.paveba_modeled S P U = Spec.union S U.
 Proof. intros. split; reflexivity. Qed.
 Print Assumptions C04_paveba_rebuilt_designs_are_the_sampled_designs.
+
+(* PaVeBaPartialGP with hyper-ELLIPSOIDS: the region of a design is { x : || Sigma^(-1/2) (x - mu) || <= alpha_t }, alpha_t the
+   regenerated 2 ln(pi^2 t^2 K / (3 delta)); it fails with probability P(chi2_m > alpha_t^2).  With the Laurent–Massart tail
+   (hypothesis chi2_lm_ok, as for PaVeBa) the union bound over designs and rounds stays below delta for up to four objectives *)
+From VOPy Require SchedulesE.
+Theorem C04_paveba_partial_gp_ellipsoids_up_to_four_objectives : forall C2 K m delta nv N, SchedulesC.chi2_lm_ok C2 ->
+  (2 <= K)%nat -> (1 <= m <= 4)%nat -> 0 < delta < 1 ->
+  sumR (fun t => INR K * C2 m (paveba_partial_gp_alpha nv delta (INR K) (INR m) (INR t) 1 *
+                               paveba_partial_gp_alpha nv delta (INR K) (INR m) (INR t) 1)) N <= delta.
+Proof. exact SchedulesE.partial_gp_ell_union_bound_m4. Qed.
+Print Assumptions C04_paveba_partial_gp_ellipsoids_up_to_four_objectives.
